@@ -252,3 +252,62 @@ Proof.
       rewrite eval_c_vote, Eba, Ep in Hv. lra.
 Qed.
 End Instance.
+
+(* ============================================================================================== *)
+(* 5. the executable oracle is complete on well-formed inputs; the extracted mirror is exact        *)
+(* ============================================================================================== *)
+Lemma forallb2_complete {T U} (f : T -> U -> bool) l1 l2 : Forall2 (fun a b => f a b = true) l1 l2 -> forallb2 f l1 l2 = true.
+Proof. apply forallb2_Forall2. Qed.
+
+Lemma lp_sat_b_complete prefs axis vs xs : lp_sat prefs axis vs xs -> lp_sat_b prefs axis vs xs = true.
+Proof.
+  intros (H1 & H2). unfold lp_sat_b. apply andb_true_iff. split.
+  - apply forallb_forall. rewrite Forall_forall in H1. intros ab Hab. apply Qle_bool_iff. exact (H1 ab Hab).
+  - apply forallb2_complete. eapply Forall2_impl; [|exact H2]. cbn beta. intros p r _ _ H. apply forallb_forall.
+    rewrite Forall_forall in H. intros ab Hab. specialize (H ab Hab).
+    destruct (before r (fst ab) (snd ab)); now apply Qle_bool_iff.
+Qed.
+
+Theorem lp_checked_complete : lp_complete lp_checked.
+Proof.
+  intros prefs axis Hnd Hpf (vs & xs & Hsat).
+  pose proof (lp_sat_system axis prefs Hnd Hpf vs xs Hsat) as Hm.
+  set (sys := eucl_system axis prefs) in *. set (n := length prefs).
+  assert (Hlenv : length (vs ++ map (posf xs) axis) = (n + length axis)%nat).
+  { rewrite app_length, map_length. destruct Hsat as (_ & H2). now rewrite (Forall2_length _ _ _ H2). }
+  assert (Hfeas : fm_feasible (n + length axis) sys = true).
+  { apply fm_feasible_correct. exists (vs ++ map (posf xs) axis). split; [assumption|].
+    eapply Forall_impl; [|exact Hm]. cbn beta. intros c Hc. lra. }
+  destruct (fm_solve_complete _ _ Hfeas) as (env & Esolve).
+  destruct (fm_solve_sound _ _ _ Esolve) as (Hlen & Hsol).
+  unfold lp_checked, lp_exact. fold sys n. rewrite Esolve.
+  set (slacks := map (fun c => - eval c env) sys).
+  set (k := match slacks with [] => 1 | s :: t => Qred (2 / qminl s t) end).
+  set (env' := map (fun x => Qred (k * x)) env).
+  assert (Hmargin : satP (fun v => v <= -2) env' sys).
+  { unfold satP. apply Forall_forall. intros c Hc. unfold env'. rewrite eval_map_scale.
+    unfold sat in Hsol. rewrite Forall_forall in Hsol.
+    assert (Hsl : In (- eval c env) slacks) by (unfold slacks; now apply (in_map (fun c => - eval c env))).
+    unfold k. destruct slacks as [|s t] eqn:Es; [destruct Hsl|].
+    destruct (qminl_spec s t) as (Hmin_in & Hmin). set (mn := qminl s t) in *.
+    assert (Hmn : 0 < mn).
+    { rewrite <- Es in Hmin_in. unfold slacks in Hmin_in. apply in_map_iff in Hmin_in.
+      destruct Hmin_in as (c0 & E0 & Hc0). specialize (Hsol c0 Hc0). cbn beta in Hsol. rewrite <- E0. lra. }
+    rewrite Qred_correct. specialize (Hmin _ Hsl).
+    assert (Hk : 0 < 2 / mn) by (apply Qlt_shift_div_l; lra).
+    assert (E2 : 2 / mn * mn == 2) by (field; lra).
+    assert (Hle : 2 / mn * mn <= 2 / mn * - eval c env) by (apply Qmult_le_l; assumption).
+    assert (E3 : 2 / mn * eval c env == - (2 / mn * - eval c env)) by ring. lra. }
+  assert (Hlen' : length env' = (n + length axis)%nat) by (unfold env'; now rewrite map_length).
+  pose proof (system_lp_sat axis prefs Hnd Hpf env' Hlen' Hmargin) as Hfinal. fold n in Hfinal.
+  rewrite (lp_sat_b_complete _ _ _ _ Hfinal). discriminate.
+Qed.
+
+(* the extracted mirror (protocol operation c19.algo) decides 1-Euclideanness exactly *)
+Theorem eucl_algo_exact_verdict alts orders : wf_profile alts orders -> orders <> [] -> alts <> [] ->
+  eucl_algo_verdict lp_checked alts orders = eucl_decide alts orders.
+Proof.
+  intros Hwf Ho Ha. apply eucl_algo_verdict_exact; try assumption.
+  - intros prefs axis vs xs. apply lp_checked_sound.
+  - exact lp_checked_complete.
+Qed.
